@@ -81,8 +81,10 @@ pub fn nms_case() -> impl Strategy<Value = NmsCase> {
         prop_oneof![2 => Just(None), 1 => Just(Some(0.0f32)), 2 => (0.2f32..0.8).prop_map(Some), 1 => Just(Some(200.0f32))],
         0u8..3,
         proptest::collection::vec(prop_oneof![3 => Just(None), 1 => (-1.5f32..1.5, -1.5f32..1.5, -1.6f32..1.6, 0u8..2).prop_map(Some)], 40),
+        // unit of length: pixels, or coordinates normalised to the image (boxes of 0.005..0.08)
+        prop_oneof![5 => Just(1.0f32), 2 => Just(1e-3f32)],
     )
-        .prop_map(|(specs, clusters, nms_thr, score_thr, score_mode, reuse)| {
+        .prop_map(|(specs, clusters, nms_thr, score_thr, score_mode, reuse, unit)| {
             let mut boxes: Vec<(UB, Option<f32>)> = vec![];
             for s in specs {
                 if s.dup && !boxes.is_empty() {
@@ -97,7 +99,7 @@ pub fn nms_case() -> impl Strategy<Value = NmsCase> {
                     (None, None) => None,
                     (a, r) => Some(a.unwrap_or(0.0) + r.unwrap_or(0.0)),
                 };
-                let mut b = UB::new(cx + s.ox * ch * (1.0 + spread), cy + s.oy * ch * (1.0 + spread), angle, w / h, h);
+                let mut b = UB::new(unit * (cx + s.ox * ch * (1.0 + spread)), unit * (cy + s.oy * ch * (1.0 + spread)), angle, w / h, unit * h);
                 match s.invalid {
                     1 => b.height = 0.0,
                     2 => b.height = -h,
@@ -250,6 +252,7 @@ pub fn check_nms(c: &NmsCase) -> CaseResult {
         .label_if(suppressed > 0, "suppression")
         .label_if(overlap_kept, "kept_overlap")
         .label_if(band_hit, "band")
+        .label_if(c.boxes.iter().any(|(b, _)| b.height > 0.0 && b.height < 0.1), "normalised_coordinates")
         .label_if(c.reused.iter().any(|r| r.is_some()), "reused_box_objects")
         .label_if(c.boxes.iter().any(|(b, _)| !(b.height > 0.0 && b.aspect > 0.0)), "invalid_present")
         .label_if(kept.is_empty(), "empty_output"))
